@@ -522,6 +522,69 @@ def run_c16(tier):
         k = sorted(groups)[len(groups) // 2]
         samples.append({"family": fam, "yaml": concretise.to_yaml(groups[k][(True, False)][0]["cfg"]),
                         "flags": "--ignore-missing-params", "expected": groups[k][(True, False)][0]["exp"]})
+    # ---- a grammar defect beside the missing references, and quiet mode: the flags touch nothing but their own class
+    from . import grammar
+    base = {"parameters": {"p": 1}, "services": {"s": {"constructor": "NewA", "arguments": ["%gone%", "@nowhere"]}}}
+    hand = [("only-missing", base, None)]
+    for tok in ("%port_%", "%db.%", "%x-%", "%%%", "%fn(%", "%nofn()%", "%a..b%", "%_a%", "%9a%", "@", "@bad name", "!value ", "!tagged "):
+        d = json.loads(json.dumps(base))
+        d["services"]["g"] = {"constructor": "NewA", "arguments": [tok]}
+        hand.append(("grammar-arg " + tok, d, "g"))
+        d = json.loads(json.dumps(base))
+        d["parameters"]["g"] = tok
+        if tok.startswith("%"):
+            hand.append(("grammar-param " + tok, d, "g"))
+    for kind in sorted(grammar.DEFECTS):
+        d = json.loads(json.dumps(base))
+        d.setdefault("meta", {"imports": {}})
+        d["meta"].setdefault("imports", {})
+        d.setdefault("decorators", [])
+        grammar.DEFECTS[kind][0](d)
+        hand.append(("grammar-" + kind, d, grammar.DEFECTS[kind][1]))
+    wd = core.subdir("c16-hand")
+    hjobs, hmeta = [], []
+    for hi, (label, doc, key) in enumerate(hand):
+        y = concretise.emit(doc, rng) + "\n"
+        for fk in FLAGKEYS:
+            for quiet in (False, True):
+                d = os.path.join(wd, "h%04d_%d%d%d" % (hi, fk[0], fk[1], quiet))
+                os.makedirs(d)
+                with open(os.path.join(d, "in.yaml"), "w") as f:
+                    f.write(y)
+                args = ["-i", "in.yaml", "-o", "out.go"] + (["--ignore-missing-params"] if fk[0] else []) + (["--ignore-missing-services"] if fk[1] else [])
+                hjobs.append({"id": len(hjobs), "dir": d, "args": args + (["-q"] if quiet else []), "version": "dev-main", "buildinfo": "verif", "out": "out.go"})
+                hmeta.append((hi, fk, quiet))
+    pool = core.DriverPool()
+    try:
+        hres = pool.run_all(hjobs)
+    finally:
+        pool.close()
+    import shutil
+    shutil.rmtree(wd, ignore_errors=True)
+    byrun = {m: r for m, r in zip(hmeta, hres)}
+    n_hand = 0
+    for hi, (label, doc, key) in enumerate(hand):
+        case = {"scenario": label, "yaml": concretise.emit(doc, None)}
+        r00 = byrun[(hi, (False, False), False)]
+        e00 = core.Report(r00["stdout"]).errors
+        for fk in FLAGKEYS:
+            n_hand += 1
+            r, rq = byrun[(hi, fk, False)], byrun[(hi, fk, True)]
+            want = (fk == (True, True)) if key is None else False
+            if r["exit"] not in (0, 1) or rq["exit"] not in (0, 1):
+                v.disagree("abnormal-exit", case, {"flags": fk, "exit": [r["exit"], rq["exit"]]})
+                continue
+            if (r["exit"] == 0) != want:
+                v.disagree("flag-accept-mismatch", case, {"flags": fk, "expected_accept": want, "exit": r["exit"], "errors": core.Report(r["stdout"]).errors[:6]})
+                continue
+            if rq["exit"] != r["exit"] or rq["stdout"] != "":
+                v.disagree("quiet-changes-the-verdict", case, {"flags": fk, "exit": r["exit"], "exit_quiet": rq["exit"], "printed": rq["stdout"][:200]})
+                continue
+            if key is not None:
+                errs = core.Report(r["stdout"]).errors
+                if errs != e00:
+                    v.disagree("diagnostic-changed-by-flag", case, {"flags": fk, "without": e00[:6], "with": errs[:6]})
+    per_family["hand"] = {"runs": len(hjobs), "configurations": len(hand)}
     if acc == 0 or rej == 0 or n_nontrivial < 2:
         raise core.InfraError("degenerate exploration: accept=%d reject=%d nontrivial=%d" % (acc, rej, n_nontrivial))
     rc = v.finish(tier, t0)
@@ -537,6 +600,6 @@ def run_c16(tier):
         "known_findings_hit": {k: n for k, (f, n) in v.known_hit.items()},
         "design_invariants_checked_by_tlc": ["FlagsOnlyNarrow"],
     }, time.time() - t0, violations=len(v.violations),
-        assumptions=["grammar defects (which fail in the Compile step, before any switchable rule) are covered by C10/C11 families",
+        assumptions=["grammar defects fail in the Compile step, before any switchable rule: a hand-made set (malformed %tokens%, @ / !value / !tagged forms, the defect classes of C11) beside a missing parameter and service must be rejected with the same error list under every flag set, with and without --quiet",
                      "diagnostics are matched by the names they mention; lists of one class are compared verbatim between runs of the same tool"])
     return rc
